@@ -1,5 +1,6 @@
 //! C04: out-of-domain field values are rejected, never silently reinterpreted.
-//!  (a) every enum-typed leaf of every message, several undeclared values at the full wire width;
+//!  (a) every enum-typed leaf of every message, several undeclared values at the full wire width, and once per
+//!      (message, enum) every undeclared number in and around the declared range;
 //!  (b) every fixed-size world message with every body length 0..size+4 except `size`;
 //!  (c) every undefined opcode (server: all 2^16; client: all <= 0xFFFF plus sampled 32-bit; login: all 256).
 use crate::corpus::Corpus;
@@ -57,6 +58,36 @@ fn candidates(declared: &[i128], base_bytes: usize, wire_bytes: usize, wire_sign
     out
 }
 
+/// every undeclared value from 16 below the smallest to 16 above the largest declared value when that span is at most
+/// 4096 numbers; for a wider enum the two neighbours of each declared value and its decimal/hexadecimal confusions
+/// (the digits of `0x21` read as 21 and the digits of 33 read as 0x33)
+fn dense(declared: &[i128], wire_bytes: usize, wire_signed: bool) -> Vec<i128> {
+    let bits = wire_bytes * 8;
+    let (lo, hi): (i128, i128) = if wire_signed { (-(1i128 << (bits - 1)), (1i128 << (bits - 1)) - 1) } else { (0, (1i128 << bits) - 1) };
+    let set: BTreeSet<i128> = declared.iter().copied().collect();
+    let (Some(&min), Some(&max)) = (set.iter().next(), set.iter().next_back()) else { return vec![] };
+    let mut out: BTreeSet<i128> = BTreeSet::new();
+    if max - min <= 4096 {
+        out.extend((min - 16)..=(max + 16));
+    } else {
+        for d in set.iter().take(1024) {
+            out.insert(d - 1);
+            out.insert(d + 1);
+        }
+    }
+    for d in set.iter().take(1024) {
+        if *d >= 0 {
+            if let Ok(x) = i128::from_str_radix(&format!("{}", d), 16) {
+                out.insert(x);
+            }
+            if let Ok(x) = format!("{:x}", d).parse::<i128>() {
+                out.insert(x);
+            }
+        }
+    }
+    out.into_iter().filter(|v| *v >= lo && *v <= hi && !set.contains(v)).collect()
+}
+
 fn wire_signed(u: &Universe, l: &Leaf) -> (usize, bool) {
     // base width and signedness of the definer
     let d = u.objects[l.definer.unwrap()].definer().unwrap();
@@ -96,6 +127,7 @@ fn process_entry(c: &Corpus, e: &Entry, tier: Tier, seed: u64, known: &KnownFind
     // one fault per (field, value class, array position, control shape of the encoding): the same member is read by
     // a separate copy of generated code in every branch that contains it
     let mut done: BTreeSet<(String, &'static str, u8, u64)> = BTreeSet::new();
+    let mut dense_done: BTreeSet<(usize, usize)> = BTreeSet::new();
     let mut failed: BTreeSet<String> = BTreeSet::new();
     let mut fail = |r: &mut EntryReport, kind: String, detail: String, j: Value| {
         if let Some(s) = known_sig(known, "C04", "c04", &e.label(), &kind) {
@@ -143,8 +175,18 @@ fn process_entry(c: &Corpus, e: &Entry, tier: Tier, seed: u64, known: &KnownFind
                 // an upcast to a wider type of the same signedness class: wire is unsigned unless the upcast type says otherwise
                 let wsigned = signed && !l.upcast;
                 let site = crate::oracle::strip_indices(&l.path);
-                for (v, class) in candidates(&declared, base_bytes, l.width, wsigned) {
-                    if !done.insert((site.clone(), class, pos, enc.shape())) {
+                let mut cands = candidates(&declared, base_bytes, l.width, wsigned);
+                // once per (message, enum, wire width): every undeclared number of the declared range and its margins
+                // (the conversion table of an enum is one piece of code, whatever field reads through it)
+                if dense_done.insert((l.definer.unwrap(), l.width)) {
+                    for v in dense(&declared, l.width, wsigned) {
+                        if !cands.iter().any(|(x, _)| *x == v) {
+                            cands.push((v, "dense"));
+                        }
+                    }
+                }
+                for (v, class) in cands {
+                    if class != "dense" && !done.insert((site.clone(), class, pos, enc.shape())) {
                         continue;
                     }
                     let frame = mutate(enc, l, v);
